@@ -191,6 +191,18 @@ func evalC04(c c04Case, o *Obs) error {
 			}
 			if ck2, err := k.Child(i); err != nil || ck2.String() != ck.String() {
 				return fmt.Errorf("%s: deriving private child %d twice from the same key gives different keys (err %v)", where, i, err)
+			} else {
+				// a child that is thrown away (zeroed) takes nothing with it
+				ck2.Zero()
+				if pc3, err := n.Child(i); err == nil {
+					pc3.Zero()
+				}
+				if ck.String() != cr.String() || (pr != nil && pc.String() != pr.String()) {
+					return fmt.Errorf("%s: after zeroing a second copy of child %d the first copy serialises differently (%s)", where, i, ck.String())
+				}
+				if ck3, err := k.Child(i); err != nil || ck3.String() != cr.String() {
+					return fmt.Errorf("%s: after zeroing one copy of child %d, deriving it again gives %v (err %v), BIP32 gives %s", where, i, ck3, err, cr.String())
+				}
 			}
 			pubK, pubR = pc, pr
 		}
